@@ -10,6 +10,7 @@ PROPS = {
     'C09': {'harness': ['harness/C09_upload.py']},
     'C10': {'harness': ['harness/C10_state.py']},
     'C11': {'harness': ['harness/C11_dirhash.py']},
+    'C14': {'harness': ['harness/C14_audit.py']},
     'C15': {'harness': ['harness/C15_share.py']},
     'C18': {'harness': ['harness/C18_paths.py']},
     'C19': {'harness': ['harness/C19_retain.py']},
